@@ -49,6 +49,7 @@ mutant("m15c", "C15", "asmjit/core/codewriter_p.h", "      if (ASMJIT_UNLIKELY(e
 mutant("m15d", "C15", "asmjit/core/jitruntime.cpp", "  if (ASMJIT_UNLIKELY(err != Error::kOk)) {\n    _allocator.release(span.rx());\n    return err;\n  }", "  if (ASMJIT_UNLIKELY(err != Error::kOk)) {\n    return err;\n  }", "span not released when relocation fails inside JitRuntime::_add")
 mutant("m15e", "C15", "asmjit/core/constpool.cpp", "      if (ASMJIT_LIKELY(node)) {\n        _tree[tree_index].insert(node);\n      }", "      _tree[tree_index].insert(node);", "revert fix: null shared constant node inserted")
 mutant("m15f", "C15", "asmjit/core/rastack.cpp", "  if (ASMJIT_UNLIKELY(_slots.reserve_additional(*arena()) != Error::kOk)) {\n    return nullptr;\n  }\n", "  (void)_slots.reserve_additional(*arena());\n", "stack slot appended unchecked after a failed reserve")
+mutant("m15g", "C15", "asmjit/core/virtmem.cpp", "      if (i == 1) {\n        unmap_memory(ptr[0], size);\n      }\n      return err;", "      return err;", "dual mapping: first view leaked when mapping the second view fails")
 # ---- C16 -----------------------------------------------------------------------------------------------------------
 mutant("m16a", "C16", "asmjit/core/compiler.cpp", "  self->_jump_annotations.reset();\n", "", "revert fix: jump annotations survive detach/reinit")
 mutant("m16b", "C16", "asmjit/core/codeholder.cpp", "  self->_named_labels.reset();\n", "  if (reset_policy == ResetPolicy::kHard) self->_named_labels.reset();\n", "named-label hash kept across soft reset / reinit")
